@@ -334,6 +334,10 @@ def run(tier):
     for lim in deep:
         cfg = dict(name="deep limits=%s" % (lim,), dt=200, limits=list(lim))
         c04.explore(rep, {"C01"}, alphabet_for(False), tier, [cfg], depth_q=4, depth_t=5 if lim == (5, 9, None) else 4, dev_k_q=0, dev_k_t=0, horizon=0, run=_run)
+    # a limit of exactly 0 is a limit (close-only strategy), not "no limit"
+    for lim in [(None, 0, None), (0, None, None), (None, None, 0), (0, 0, 0)]:
+        cfg = dict(name="zero limits=%s" % (lim,), dt=200, limits=list(lim))
+        c04.explore(rep, {"C01"}, alphabet_for(False), tier, [cfg], depth_q=2, depth_t=3, dev_k_q=0, dev_k_t=0, horizon=0, run=_run)
     for lim in [(5, 9, None), (None, 9, 12), (None, None, None)]:
         cfg = dict(name="line limits=%s" % (lim,), dt=200, limits=list(lim), line=True)
         c04.explore(rep, {"C01"}, alphabet_for(True), tier, [cfg], depth_q=4, depth_t=5, dev_k_q=0, dev_k_t=0, horizon=0, run=_run)
